@@ -25,6 +25,9 @@ pub enum Kind {
     Spawn = 3,
     /// which queued job runs next (n = queue length)
     Order = 4,
+    /// a worker waiting for a stolen job: 0 keep waiting (the thief finishes first),
+    /// 1.. run one of the pending jobs it could pop or steal, nested (n = 1 + candidates)
+    Help = 5,
 }
 
 impl Kind {
@@ -35,6 +38,7 @@ impl Kind {
             2 => Kind::Thief,
             3 => Kind::Spawn,
             4 => Kind::Order,
+            5 => Kind::Help,
             _ => return None,
         })
     }
@@ -86,6 +90,8 @@ pub struct Stats {
     pub steal_before: u64,
     pub worker_reindex: u64,
     pub injected_top_level: u64,
+    pub helped_local: u64,
+    pub helped_foreign: u64,
     pub spawns: u64,
     pub spawn_reorder: u64,
     pub installs: u64,
@@ -230,6 +236,7 @@ pub(crate) fn with<R>(f: impl FnOnce(&mut State) -> R) -> R {
 
 /// Start a simulated run on this OS thread.
 pub fn begin(cfg: Config) {
+    crate::clear_pending();
     with(|s| {
         *s = State::new();
         s.active = true;
@@ -258,6 +265,7 @@ pub fn set_width(width: usize) {
 /// Finish the run: execute still-deferred detached jobs, return trace and statistics.
 pub fn end() -> Report {
     crate::run_deferred_spawns();
+    crate::clear_pending();
     with(|s| {
         let mut h: u64 = 0xcbf2_9ce4_8422_2325;
         for d in &s.trace {
